@@ -208,10 +208,17 @@ def check_edited(ctx, budget, rng, n, route):
         if x == y:
             break
         try:
-            if (x, y) in lb or (x not in firsts and y not in seconds):
-                if (x, y) in lb or rng.random() < 0.5:
+            if (x, y) in lb:
+                continue
+            free = x not in firsts and y not in seconds
+            if free or rng.random() < 0.5:
+                # an unrelate of a pair that is not linked - whether or not either of them has another partner
+                if free and rng.random() < 0.5:
                     continue
-                xtuml.unrelate(insts[x], insts[y], 1, 'precedes')
+                phrase = rng.choice(('precedes', 'precedes', 'succeeds'))
+                if phrase == 'succeeds' and (y, x) in lb:
+                    continue
+                xtuml.unrelate(insts[x], insts[y], 1, phrase)
             else:
                 xtuml.relate(insts[x], insts[y], 1, 'precedes')
         except (xtuml.RelateException, xtuml.UnrelateException):
